@@ -196,7 +196,7 @@ Fixpoint walk (s : wst) (fs : list file) : wres :=
 Inductive ierr :=
 | EEmptyPath | ESrcStat | ESrcTwoExec | ESrcNoExec | EFileName | ECheckExec | ENotExec
 | ENewPlugin | EMetaInvalid | EMisnamed | EExistCheck | EExistMeta
-| EVersion | EDowngrade | EEqual | ECleanup | ECopy | EOther.
+| EVersion | EDowngrade | EEqual | ESelf | ECleanup | ECopy | EOther.
 
 Inductive located :=
 | LErr (e : ierr)
@@ -328,6 +328,146 @@ Definition uninstall (st : state) (name : string) : state * option uerr :=
        | Some _ => (aremove name st, None)
        end.
 
+(* ---------- where the source lies (after 6dc7abe) ---------- *)
+(* [install] above is Install for a source that lies outside the plugin root and is not a
+   link into it: nothing Install removes or changes can be part of it. The general form: *)
+Inductive place :=
+| POut (src : source)                  (* outside the plugin root, not a link into it *)
+| PInDir (k : string)                  (* the directory <root>/k: given directly, with a trailing separator, or as a
+                                          symbolic link to it given with a trailing separator *)
+| PInFile (k fname : string)           (* the file <root>/k/fname *)
+| PLinkDir                             (* a symbolic link to a directory (anywhere) given without trailing separator:
+                                          os.Stat sees a directory, filepath.WalkDir does not follow the link *)
+| PLinkFile (lname k fname : string).  (* a symbolic link named lname, outside the root, to <root>/k/fname *)
+
+Record resolved := mk_res {
+  rs_src : source;             (* what the path holds, as a source *)
+  rs_home : option string;     (* Some k: filepath.Dir of the executable the source designates is <root>/k *)
+  rs_target : option string }. (* Some k: the source vanishes when <root>/k is removed *)
+
+Definition resolve (st : state) (p : place) : resolved :=
+  match p with
+  | POut src => mk_res src None None
+  | PInDir k =>
+      match afind k st with
+      | Some d => mk_res (SDir k (map EF d)) (Some k) (Some k)
+      | None => mk_res SMissing None None
+      end
+  | PInFile k fname =>
+      match afind k st with
+      | Some d => match find_file fname d with
+                  | Some f => mk_res (SFile f) (Some k) (Some k)
+                  | None => mk_res SMissing None None
+                  end
+      | None => mk_res SMissing None None
+      end
+  | PLinkDir => mk_res (SDir "" []) None None
+  | PLinkFile lname k fname =>
+      match afind k st with
+      | Some d => match find_file fname d with
+                  | Some f => mk_res (SFile (F lname (f_mode f) (f_cid f))) None (Some k)
+                  | None => mk_res SMissing None None
+                  end
+      | None => mk_res SMissing None None
+      end
+  end.
+
+(* the value under the first key k replaced *)
+Fixpoint areplace (k : string) (v : pdir) (m : state) : state :=
+  match m with
+  | [] => []
+  | (k', v') :: m' => if String.eqb k k' then (k, v) :: m' else (k', v') :: areplace k v m'
+  end.
+
+(* setExecutable inside parsePluginFromDir works on the source: for a directory of the root the
+   root itself changes ([copy] = the regular files of the directory as the walk left them) *)
+Definition after_parse (st : state) (p : place) (loc : located) : state :=
+  match p, loc with
+  | PInDir k, LOk _ _ copy => areplace k copy st
+  | _, _ => st
+  end.
+
+(* Install from the existence check on, with the function that finishes it as a parameter *)
+Definition install_with_g (doi : state -> string -> list file -> option meta -> meta -> state * ires)
+           (loc : located) (tbl : table) (st : state) (ow : bool) : state * ires :=
+  match loc with
+  | LErr e => fail st e
+  | LOk exe pname copy =>
+      match ask tbl pname exe with
+      | AOk n v =>
+          match get_plugin st pname with
+          | GBadName => if ow then doi st pname copy None (n, v) else fail st EExistCheck
+          | GNone => doi st pname copy None (n, v)
+          | GFound f =>
+              match ask tbl pname f with
+              | AOk en ev =>
+                  if ow then doi st pname copy (Some (en, ev)) (n, v)
+                  else match compare_plugin_version v ev with
+                       | None => fail st EVersion
+                       | Some Lt => fail st EDowngrade
+                       | Some Eq => fail st EEqual
+                       | Some Gt => doi st pname copy (Some (en, ev)) (n, v)
+                       end
+              | _ => if ow then doi st pname copy None (n, v) else fail st EExistMeta
+              end
+          end
+      | AMisnamed => fail st EMisnamed
+      | _ => fail st EMetaInvalid
+      end
+  end.
+
+Definition same_name (o : option string) (n : string) : bool := opt_eqb String.eqb o (Some n).
+
+(* isSameDir check, clean up (Uninstall), copy — the copy reads the source after the clean-up *)
+Definition do_install_at (rs : resolved) (st : state) (pname : string) (copy : list file)
+           (ex : option meta) (nw : meta) : state * ires :=
+  if same_name (rs_home rs) pname then fail st ESelf
+  else if negb (valid_name pname) then fail st ECleanup
+  else
+    let st1 := aremove pname st in
+    if same_name (rs_target rs) pname then (st1, mk_ires None None (Some ECopy))
+    else
+      let st2 := match copy with [] => st1 | _ => ainsert pname (map mask copy) st1 end in
+      (st2, mk_ires ex (Some nw) None).
+
+(* before 6dc7abe: no isSameDir check *)
+Definition do_install_at_v0 (rs : resolved) (st : state) (pname : string) (copy : list file)
+           (ex : option meta) (nw : meta) : state * ires :=
+  if negb (valid_name pname) then fail st ECleanup
+  else
+    let st1 := aremove pname st in
+    if same_name (rs_target rs) pname then (st1, mk_ires None None (Some ECopy))
+    else
+      let st2 := match copy with [] => st1 | _ => ainsert pname (map mask copy) st1 end in
+      (st2, mk_ires ex (Some nw) None).
+
+Definition install_at_g (doi : resolved -> state -> string -> list file -> option meta -> meta -> state * ires)
+           (tbl : table) (st : state) (p : place) (ow : bool) : state * ires :=
+  let rs := resolve st p in
+  let loc := locate (rs_src rs) in
+  install_with_g (doi rs) loc tbl (after_parse st p loc) ow.
+
+Definition install_at : table -> state -> place -> bool -> state * ires := install_at_g do_install_at.
+Definition install_at_v0 : table -> state -> place -> bool -> state * ires := install_at_g do_install_at_v0.
+
+(* the two forms of source on which the code (still) changes the root although it refuses:
+   a directory of the root whose only file named notation-{name} is not executable (setExecutable
+   changes it before anything is checked), and a link, named for plugin k, into the directory of k
+   (the clean-up removes the target of the link before the copy) *)
+Definition place_clean (st : state) (p : place) : bool :=
+  match p with
+  | PInDir k =>
+      match afind k st with
+      | Some d => match filter is_exec (filter is_cand d), filter is_cand d with
+                  | [], [_] => false
+                  | _, _ => true
+                  end
+      | None => true
+      end
+  | PLinkFile lname k _ => negb (same_name (pname_of lname) k)
+  | _ => true
+  end.
+
 (* ---------- pre-fix variants (kept for the record; see C20_Proofs) ---------- *)
 (* before 3438892: candidatePluginName was assigned before the format check, so a
    later file whose name does not match erased it *)
@@ -424,9 +564,32 @@ Fixpoint final_state (tbl : table) (st : state) (ops : list op) : state :=
   | o :: r => final_state tbl (fst (mstep tbl st o)) r
   end.
 
+(* histories whose installations name the place of the source *)
+Inductive opat := AInstall (p : place) (ow : bool) | AUninstall (name : string).
+
+Definition mstep_at (tbl : table) (st : state) (o : opat) : state * sres :=
+  match o with
+  | AInstall p ow => let (st', r) := install_at tbl st p ow in (st', RInstall r)
+  | AUninstall n => let (st', e) := uninstall st n in (st', RUninstall e)
+  end.
+
+Fixpoint run_ops_at (tbl : table) (st : state) (ops : list opat) : list sobs :=
+  match ops with
+  | [] => []
+  | o :: r => let (st', res) := mstep_at tbl st o in
+              mk_sobs res (view_of tbl st') :: run_ops_at tbl st' r
+  end.
+
+Fixpoint final_state_at (tbl : table) (st : state) (ops : list opat) : state :=
+  match ops with
+  | [] => st
+  | o :: r => final_state_at tbl (fst (mstep_at tbl st o)) r
+  end.
+
 Inductive input :=
 | IHist (tbl : table) (init : state) (ops : list op)
-| ICmp (v w : string).
+| ICmp (v w : string)
+| IHistAt (tbl : table) (init : state) (ops : list opat).
 
 Inductive obs :=
 | OHist (v0 : view) (steps : list sobs)
@@ -436,6 +599,7 @@ Definition model (i : input) : obs :=
   match i with
   | IHist tbl st ops => OHist (view_of tbl st) (run_ops tbl st ops)
   | ICmp v w => OCmp (compare_plugin_version v w)
+  | IHistAt tbl st ops => OHist (view_of tbl st) (run_ops_at tbl st ops)
   end.
 
 (* ---------- boolean equalities ---------- *)
@@ -459,7 +623,7 @@ Definition ierr_eqb (a b : ierr) : bool :=
   | EFileName, EFileName | ECheckExec, ECheckExec | ENotExec, ENotExec | ENewPlugin, ENewPlugin
   | EMetaInvalid, EMetaInvalid | EMisnamed, EMisnamed | EExistCheck, EExistCheck
   | EExistMeta, EExistMeta | EVersion, EVersion | EDowngrade, EDowngrade | EEqual, EEqual
-  | ECleanup, ECleanup | ECopy, ECopy | EOther, EOther => true
+  | ESelf, ESelf | ECleanup, ECleanup | ECopy, ECopy | EOther, EOther => true
   | _, _ => false
   end.
 Definition uerr_eqb (a b : uerr) : bool :=
@@ -631,8 +795,39 @@ Fixpoint steps_ok (tbl : table) (T : state) (ops : list op) (ss : list sobs) : b
   | _, _ => false
   end.
 
+(* an installation that names the place of its source: judged as the installation of what the
+   place holds ([resolve] on the tree observed before the step: a look-up, not the model of
+   Install) - accepted or refused by the same rules, the root untouched when refused -; the only
+   further reason to refuse is that the source lies in the very directory that would be replaced,
+   and then again nothing may change *)
+Definition install_at_ok (tbl : table) (T : state) (p : place) (ow : bool) (r : ires) (v' : view) : bool :=
+  let rs := resolve T p in
+  install_ok tbl T (rs_src rs) ow r v'
+  || match verdict tbl T (rs_src rs) ow, r_err r with
+     | Some (n, _, _), Some _ =>
+         same_name (rs_target rs) n && state_eqb (v_tree v') T && is_none (r_new r) && is_none (r_existing r)
+     | _, _ => false
+     end.
+
+Definition step_ok_at (tbl : table) (T : state) (o : opat) (s : sobs) : bool :=
+  view_ok tbl (s_view s)
+  && match o, s_res s with
+     | AInstall p ow, RInstall r => install_at_ok tbl T p ow r (s_view s)
+     | AUninstall n, RUninstall e => uninstall_ok T n e (s_view s)
+     | _, _ => false
+     end.
+
+Fixpoint steps_ok_at (tbl : table) (T : state) (ops : list opat) (ss : list sobs) : bool :=
+  match ops, ss with
+  | [], [] => true
+  | o :: ops', s :: ss' => step_ok_at tbl T o s && steps_ok_at tbl (v_tree (s_view s)) ops' ss'
+  | _, _ => false
+  end.
+
 Definition spec_ok (i : input) (o : obs) : bool :=
   match i, o with
+  | IHistAt tbl st ops, OHist v0 ss =>
+      state_eqb (v_tree v0) st && view_ok tbl v0 && steps_ok_at tbl st ops ss
   | IHist tbl st ops, OHist v0 ss =>
       state_eqb (v_tree v0) st && view_ok tbl v0 && steps_ok tbl st ops ss
   | ICmp v w, OCmp r =>
@@ -676,11 +871,32 @@ Definition state_ok (st : state) : bool :=
   sortedb (map fst st)
   && forallb (fun p => sortedb (map f_name (snd p)) && forallb file_ok (snd p)) st.
 
-Definition wf (i : input) : bool :=
+Definition opat_ok (o : opat) : bool :=
+  match o with AInstall (POut s) _ => source_ok s | _ => true end.
+
+(* along the history as the model runs it: what every place holds is a well-formed source, and
+   no step uses one of the two forms of [place_clean] *)
+Fixpoint at_ok (tbl : table) (st : state) (ops : list opat) : bool :=
+  match ops with
+  | [] => true
+  | o :: r =>
+      match o with
+      | AInstall p _ => source_ok (rs_src (resolve st p)) && place_clean st p
+      | AUninstall _ => true
+      end && at_ok tbl (fst (mstep_at tbl st o)) r
+  end.
+
+(* the contract the driver applies before it asks the oracle (on the input alone) *)
+Definition wf_static (i : input) : bool :=
   match i with
   | IHist _ st ops => state_ok st && forallb op_ok ops
   | ICmp _ _ => true
+  | IHistAt _ st ops => state_ok st && forallb opat_ok ops
   end.
+
+(* the contract of the theorem C20_model_meets_oracle *)
+Definition wf (i : input) : bool :=
+  wf_static i && match i with IHistAt tbl st ops => at_ok tbl st ops | _ => true end.
 
 (* ---------- cases ---------- *)
 Record case := mk_case { c_id : N; c_in : input; c_obs : obs }.
@@ -688,5 +904,5 @@ Record case := mk_case { c_id : N; c_in : input; c_obs : obs }.
 Definition run (cs : list case) : list (N * N * N) :=
   run_cases c_id
     (fun c => obs_eqb (model (c_in c)) (c_obs c))
-    (fun c => negb (wf (c_in c)) || spec_ok (c_in c) (c_obs c))
+    (fun c => negb (wf_static (c_in c)) || spec_ok (c_in c) (c_obs c))
     (fun _ => 0%N) cs.
